@@ -293,15 +293,18 @@ def run_check(prop, tier, seed):
     except BuildError as e:
         print("BUILD-FAILED property=%s harness=%s\n%s" % (prop, harness, e))
         return 2
-    also = cfg.get("also", {}).get(prop)
-    also_targets = None
-    if also:
-        also_targets = vharness.targets_for(also["harness"], ["rc", "rp"])
+    also = cfg.get("also", {}).get(prop) or []
+    if isinstance(also, dict):
+        also = [also]
+    also_targets = []
+    for a in also:
+        tg = vharness.targets_for(a["harness"], ["rc", "rp"])
         try:
-            vbuild.build_targets(list(also_targets.values()) + vharness.extra_targets(also["harness"]))
+            vbuild.build_targets(list(tg.values()) + vharness.extra_targets(a["harness"]))
         except BuildError as e:
-            print("BUILD-FAILED property=%s harness=%s\n%s" % (prop, also["harness"], e))
+            print("BUILD-FAILED property=%s harness=%s\n%s" % (prop, a["harness"], e))
             return 2
+        also_targets.append(tg)
     scratch = mk_scratch()
     try:
         return _run_check(prop, tier, seed, t0, harness, cfg, budget, level, targets, scratch, also, also_targets)
@@ -345,18 +348,17 @@ def _run_check(prop, tier, seed, t0, harness, cfg, budget, level, targets, scrat
     candidates.extend(cands)
 
     # ---- 2b. the property's integration part in a second harness (cfg["also"]) ---------------
-    rp_also = None
-    if also:
-        acfg = HARNESSES[also["harness"]]
-        rp_also = Replayer(also["harness"], prop, scratch, known_path, also_targets["rp"].out)
-        atapes = [] if os.environ.get("VERIF_NO_REPLAY") else sorted(glob.glob(os.path.join(VERIF, "regress", also["harness"], "*.tape")))
+    for also1, tg1 in zip(also or [], also_targets or []):
+        acfg = HARNESSES[also1["harness"]]
+        rp_also = Replayer(also1["harness"], prop, scratch, known_path, tg1["rp"].out)
+        atapes = [] if os.environ.get("VERIF_NO_REPLAY") else sorted(glob.glob(os.path.join(VERIF, "regress", also1["harness"], "*.tape")))
         with ThreadPoolExecutor(max_workers=NWORKERS) as ex:
             for pth, r in ex.map(lambda q: (q, rp_also.run_file(q)), atapes):
                 if r["cls"] != "ok":
-                    candidates.append(("replay[%s]:" % also["harness"] + os.path.relpath(pth, VERIF), open(pth, "rb").read(), r["cls"], r, rp_also))
+                    candidates.append(("replay[%s]:" % also1["harness"] + os.path.relpath(pth, VERIF), open(pth, "rb").read(), r["cls"], r, rp_also))
         engines_count["replay"] = engines_count.get("replay", 0) + len(atapes)
-        an = int(also[tier]["rc_cases"] * float(os.environ.get("VERIF_SCALE", "1")))
-        st2, c2 = run_rc_workers(prop, also_targets["rc"].out, scratch, known_path, seed, an, also[tier]["rc_size"], acfg, also["harness"] + "_", stuck_s)
+        an = int(also1[tier]["rc_cases"] * float(os.environ.get("VERIF_SCALE", "1")))
+        st2, c2 = run_rc_workers(prop, tg1["rc"].out, scratch, known_path, seed, an, also1[tier]["rc_size"], acfg, also1["harness"] + "_", stuck_s)
         stats_all.extend(st2)
         candidates.extend([c + (rp_also,) for c in c2])
 
